@@ -15,6 +15,8 @@ func init() {
 		ruleBase64Std(c, r)
 		ruleUnionNameClash(c, r)
 		ruleSortTotal(c, r)
+		ruleNilForEmpty(c, r)
+		ruleJSONPathPrefix(c, r)
 	})
 	register("C02", func(c *Ctx, r *Report) {
 		r.Decides("gNMI scalar wrapper produced per YANG kind is accepted by the decoder; every key kind has a string form and both parsers; every leaf-list element kind is encodable.",
@@ -103,6 +105,8 @@ func init() {
 		ruleDiffSkip(c, r)
 		ruleEmptyLeafList(c, r)
 		ruleAppendAlias(c, r, c.anchored("C03"), 40)
+		ruleWildcardOpt(c, r)
+		ruleOptsScan(c, r)
 	})
 }
 
@@ -187,6 +191,8 @@ func init() {
 			"idempotence; BuildEmptyTree∘Prune identity at value level.")
 		rulePrune(c, r)
 		rulePruneDescend(c, r)
+		ruleOrderedMapTraversal(c, r)
+		ruleOMVisitAll(c, r)
 		ruleSliceEmptiness(c, r, 3)
 	})
 	register("C18", func(c *Ctx, r *Report) {
@@ -194,6 +200,8 @@ func init() {
 			"range correctness for every width at value level; re-render fidelity.")
 		ruleFloat2Int(c, r)
 		ruleDecimalLexical(c, r)
+		ruleNilForEmpty(c, r)
+		ruleStripExact(c, r)
 		ruleDecodeDiscipline(c, r)
 		ruleEmptyExact(c, r)
 		ruleEnumLib(c, r)
@@ -221,6 +229,9 @@ func init() {
 		ruleMapRangeReturnFile(c, r, "ytypes", "util_types.go")
 		ruleEnumGen(c, r)
 		ruleEnumGoNameUniq(c, r)
+		ruleEnumKeyRender(c, r)
+		ruleDedupScope(c, r)
+		ruleStripExact(c, r)
 	})
 	register("C20", func(c *Ctx, r *Report) {
 		r.Decides("three panic classes over everything statically reachable from the nine entry points: unchecked single-result type assertions, comparisons of possibly-uncomparable interface values, reflective calls with unchecked arity; plus no explicit panic().",
@@ -249,6 +260,7 @@ func init() {
 		rulePredicateKey(c, r)
 		ruleVisitorCopy(c, r)
 		ruleLeafrefNoWildcard(c, r)
+		ruleDeepEqType(c, r)
 	})
 }
 
@@ -295,6 +307,9 @@ func init() {
 		ruleKeyPresence(c, r)
 		ruleResultKeys(c, r)
 		ruleListMemberSet(c, r)
+		ruleReflectSign(c, r, c.funcsInScope(func(s string) bool { return s == "ygot/render.go" }, libPkgs), 3)
+		ruleSignConv(c, r, c.funcsInScope(func(s string) bool { return s == "ygot/render.go" }, libPkgs), 0)
+		ruleLeafListTyped(c, r)
 	})
 }
 
@@ -330,6 +345,7 @@ func init() {
 		ruleDiffGuards(c, r)
 		ruleSetOrder(c, r)
 		ruleWildcardOpt(c, r)
+		ruleOMVisitAll(c, r)
 	})
 	register("C34", func(c *Ctx, r *Report) {
 		r.Decides("the keyed-list helper code that gogen's templates expand to, for every key shape in the analyser's table, obeys the keyed-map discipline method by method (New/Append reject duplicates and nil keys before writing, Get never writes, GetOrCreate creates only on a miss, Delete removes only the key, Rename validates first, updates every key leaf from newK and moves the entry).",
